@@ -80,6 +80,7 @@ def conj(test):
 def run(ctx):
   order(ctx)
   roll_gap_index(ctx)
+  roll_pitch_range(ctx)
   api(ctx)
   escapes(ctx)
   shifts(ctx)
@@ -130,6 +131,50 @@ def roll_gap_index(ctx, rule='ROLL/gap-index-in-range'):
              '%s writes row %s = (%r) - 1 without 0 < %r being established: for a note on the first row the index is -1, numpy\'s last row, and the pitch is erased from the '
              'final step of the sequence' % (norm_text(st), norm_text(tgt.slice.elts[0]), off, off), construct='gap row index is not negative', definite=True)
   return n
+
+
+def roll_pitch_range(ctx, rule='ROLL/pitch-range-inclusive'):
+  """Location-independent, by boundary scenarios (sa.scenario): "exactly the set of sounding in-range pitches" with min_pitch and
+  max_pitch *inclusive* (documented).  The statement that paints a note into the roll must be reachable for a note whose pitch
+  equals min_pitch and for one whose pitch equals max_pitch, and unreachable for min_pitch - 1 and max_pitch + 1.  The
+  conditions on the way (guards, early `continue`s, the filter of a pre-selected note list) are evaluated under each of the
+  four equalities; a verdict is drawn only where the evaluation is definite."""
+  from sa import scenario
+  fi = ctx.func('pianoroll_lib:PianorollSequence._from_quantized_sequence')
+  fn = fi.node
+  for st in U.walk_stmts(fn):
+    paints = [t for t, v, op in U.store_targets(st) if op == 'store' and isinstance(t, ast.Subscript) and isinstance(t.slice, ast.Tuple) and
+              any(isinstance(e, ast.Slice) for e in t.slice.elts) and U.const_value(v) in (1, True)]
+    if not paints:
+      continue
+    loops = [l for l in U.enclosing_loops(fn, st) if isinstance(l, ast.For) and isinstance(l.target, ast.Name)]
+    if not loops:
+      continue
+    v = loops[-1].target.id
+    conds = scenario.reach_conditions(fn, st)
+    for what, value, must in (('max_pitch', 'max_pitch', True), ('min_pitch', 'min_pitch', True),
+                              ('max_pitch + 1', 'max_pitch + 1', False), ('min_pitch - 1', 'min_pitch - 1', False)):
+      sb = scenario.subst_of([('%s.pitch' % v, value)])
+      vals = [(None if scenario.tv(t, sb) is None else (scenario.tv(t, sb) == p), t) for t, p in conds]
+      decided = [x for x, _t in vals if x is not None]
+      on_pitch_undecided = [t for x, t in vals if x is None and ('%s.pitch' % v) in norm_text(t)]
+      if must:
+        if not decided:
+          continue
+        ok = all(decided)           # no condition on the way excludes this pitch
+      else:
+        if any(x is False for x in decided):
+          ok = True
+        elif decided and not on_pitch_undecided:
+          ok = False                # every condition that mentions the pitch lets it through
+        else:
+          continue
+      if True:
+        ctx.ob(rule, fi, st, ok, 'a note with pitch %s is %s' % (what, 'painted' if must else 'ignored') if ok else
+               'a note whose pitch is %s is %s: the range [min_pitch, max_pitch] is inclusive at both ends (%s)' % (
+                   what, 'never painted into the roll' if must else 'painted into the roll although it is outside the range',
+                   ' and '.join(('' if p else 'not ') + '(' + norm_text(t) + ')' for t, p in conds if scenario.tv(t, scenario.subst_of([('%s.pitch' % v, value)])) is not None)),
+               construct='pitch %s' % what, definite=True)
 
 
 def order(ctx):
@@ -189,6 +234,31 @@ def escapes(ctx):
              construct='%s can raise %s' % (fi.qualname, cls))
 
 
+def velocity_onsets(ctx, rule='VEL/onsets-only'):
+  """Location-independent (shared with C06): see the comment inside."""
+  fi = ctx.func('performance_lib:BasePerformance._from_quantized_sequence')
+  loop = next((n for n in fi.node.body if isinstance(n, ast.For) and isinstance(n.target, ast.Tuple) and len(n.target.elts) == 3), None)
+  if loop is None:
+    return
+  step, idx, off = [e.id for e in loop.target.elts]
+  # location-independent form of the same contract: the tracked bin is a property of the last NOTE_ON, so every update of it and
+  # every VELOCITY event lie on paths where the event is an onset (enclosing tests and earlier `if is_offset: ... continue` exits)
+  binvar = [s_.targets[0].id for s_ in U.walk_stmts(loop) if isinstance(s_, ast.Assign) and isinstance(s_.targets[0], ast.Name) and isinstance(s_.value, ast.Call) and
+            dotted(s_.value.func) == 'velocity_to_bin']
+  state = []
+  for s_ in U.walk_stmts(loop):
+    if isinstance(s_, ast.Assign) and isinstance(s_.targets[0], ast.Name) and isinstance(s_.value, ast.Name) and s_.value.id in binvar and s_.targets[0].id not in binvar:
+      state.append(s_)
+  emits = [s_ for s_ in U.walk_stmts(loop) if isinstance(s_, ast.Expr) and 'PerformanceEvent.VELOCITY' in norm_text(s_)]
+  if len(state) >= 1 and len(emits) >= 1:
+    for s_ in state + emits:
+      conds = U.path_conditions(fi.node, s_, stop_at=loop)
+      onset = any(not pol and norm_text(t) == off for (t, pol) in conds)
+      ctx.ob(rule, fi, s_, onset, 'executed for onsets only' if onset else
+             '`%s` can execute for a note-off (no condition on the path to it excludes %s): the tracked velocity bin then follows a note that has ended' % (norm_text(s_)[:70], off),
+             construct='%s only for onsets' % ('bin update' if s_ in state else 'VELOCITY event'), definite=True)
+
+
 def shifts(ctx):
   fi = ctx.func('performance_lib:BasePerformance._from_quantized_sequence')
   loop = next((n for n in fi.node.body if isinstance(n, ast.For) and isinstance(n.target, ast.Tuple) and len(n.target.elts) == 3), None)
@@ -246,22 +316,7 @@ def shifts(ctx):
     okv = ('not %s' % off) in names and len(curbin) == 1 and any(has(p, 'A != B', {curbin[0]: E('B'), norm_text(vel.body[0].value) if isinstance(vel.body[0], ast.Assign) else 'x': E('A')}) for p in parts)
   ctx.ob('VEL/emit-on-change', fi, vel or loop, okv, 'a VELOCITY event is emitted exactly for onsets whose bin differs from the current bin, which it then becomes' if okv else
          'velocity events are not emitted under "onset and bin != current bin" with the current bin updated')
-  # location-independent form of the same contract: the tracked bin is a property of the last NOTE_ON, so every update of it and
-  # every VELOCITY event lie on paths where the event is an onset (enclosing tests and earlier `if is_offset: ... continue` exits)
-  binvar = [s_.targets[0].id for s_ in U.walk_stmts(loop) if isinstance(s_, ast.Assign) and isinstance(s_.targets[0], ast.Name) and isinstance(s_.value, ast.Call) and
-            dotted(s_.value.func) == 'velocity_to_bin']
-  state = []
-  for s_ in U.walk_stmts(loop):
-    if isinstance(s_, ast.Assign) and isinstance(s_.targets[0], ast.Name) and isinstance(s_.value, ast.Name) and s_.value.id in binvar and s_.targets[0].id not in binvar:
-      state.append(s_)
-  emits = [s_ for s_ in U.walk_stmts(loop) if isinstance(s_, ast.Expr) and 'PerformanceEvent.VELOCITY' in norm_text(s_)]
-  if len(state) >= 1 and len(emits) >= 1:
-    for s_ in state + emits:
-      conds = U.path_conditions(fi.node, s_, stop_at=loop)
-      onset = any(not pol and norm_text(t) == off for (t, pol) in conds)
-      ctx.ob('VEL/onsets-only', fi, s_, onset, 'executed for onsets only' if onset else
-             '`%s` can execute for a note-off (no condition on the path to it excludes %s): the tracked velocity bin then follows a note that has ended' % (norm_text(s_)[:70], off),
-             construct='%s only for onsets' % ('bin update' if s_ in state else 'VELOCITY event'), definite=True)
+  velocity_onsets(ctx)
   vb = [c for c in U.calls_in(loop) if dotted(c.func) == 'velocity_to_bin']
   ok = len(vb) == 1 and norm_text(vb[0].args[1]) == 'num_velocity_bins' and norm_text(vb[0].args[0]).endswith('.velocity')
   ctx.ob('VEL/bin-function', fi, vb[0] if vb else loop, ok, 'bins come from velocity_to_bin(note.velocity, num_velocity_bins)' if ok else 'the velocity bin is not velocity_to_bin(note.velocity, num_velocity_bins)')
@@ -518,6 +573,9 @@ def metric_limit(ctx, rule='SHIFT/metric-limit'):
 def chords(ctx):
   fi = ctx.func('chords_lib:ChordProgression.from_quantized_sequence')
   fn = fi.node
+  from rules import C10
+  C10.carried_previous(ctx, fi, 'CHORD/previous-step', 'two chords are coincident when they start on the same step; a remembered step that was clamped (e.g. to the start of the range) '
+                       'makes a chord on that step look coincident with an earlier chord carried in from before the range, and a spurious CoincidentChordsError is raised')
   loop = next((n for n in fn.body if isinstance(n, ast.For)), None)
   ctx.require(loop is not None, 'ChordProgression.from_quantized_sequence: loop not found')
   v = loop.target.id
